@@ -7,6 +7,8 @@ HOOKS = {
     "add_only": True,
 }
 ENGINES = [
+    {"name": "grid", "path": "/verif/mc/props", "serves_properties": ["C04"],
+     "kind_free_text": "complete Cartesian products of finite input alphabets executed on the real code and compared with an explicit oracle or metamorphic relation"},
     {"name": "fault", "path": "/verif/mc/props/C08.py", "serves_properties": ["C08"],
      "kind_free_text": "fault-point enumerator: public-API fault menu x position and sys.settrace call-level injection, snapshot oracle"},
     {"name": "hist", "path": "/verif/mc/props", "serves_properties": ["C09", "C10", "C11", "C18", "C20"],
@@ -74,5 +76,15 @@ CHECKS["C20"] = dict(
     note="Leaf values are derived by probing a fixed candidate pool (leaves without two accepted values are listed as uncovered in the "
          "evidence). The harness restores the global defaults itself between histories (per-leaf assignment, verified). Trusted: the "
          "layered model in mc/props/C20.py (object > family default > base default; show kwarg on top).")
+CHECKS["C04"] = dict(
+    engine="grid", level="exploration", design_ref="DESIGN.md §4 C04",
+    technique="bounded-exhaustive enumeration of sensor layouts (pixel shape x path kind x handedness x pixel_agg x sources x path lengths x call form) against an explicit per-pixel oracle",
+    text="Every layout of 1 sensor (70 configurations = 5 pixel shapes x 7 path kinds x 2 handedness) x 6 aggregations x 4 call forms, "
+         "every pair (first sensor any configuration, second from a menu of 8; thorough: any x any) and triples from menus, crossed "
+         "with 2 source sets and source/sensor path lengths {1,3}, is evaluated and compared element by element with R_m^T B(R_m pix + p_m) "
+         "(x negated for left-handed sensors, named NumPy reduction over pixels).",
+    note="Path kinds include the shortcuts' edge cases: unit rotation first then rotated, orientation returning to its start, +a/-a "
+         "conjugate quaternions. Reference global field = getB(sources, ndarray) of the same library (array observers bypass sensor "
+         "handling). rel. tolerance 1e-10.")
 _todo = "check not built yet in this session (planned, see DESIGN.md §4); nothing is claimed for it"
 NOT_APPLICABLE = [{"property_id": f"C{i:02d}", "reason": _todo} for i in range(1, 21) if f"C{i:02d}" not in CHECKS]
